@@ -50,7 +50,7 @@ func (e *kvElection) heartbeatLoop(ctx context.Context) {
 							zap.Int("threshold", maxHealthFailures),
 						)...,
 					)
-					if failureCount >= int32(maxHealthFailures) {
+					if int64(failureCount) >= int64(maxHealthFailures) {
 						e.handleHealthCheckFailure(ctx)
 						return
 					}
